@@ -102,6 +102,45 @@ func (w *World) directSinkCalls(r *Report, rule string) []sinkCall {
 			}
 		}
 	}
+	// interface calls from outside the journaling layer, resolved with VTA: which concrete store
+	// actually flows into an interface-typed field (e.g. auth.KV)?
+	g := w.VTA()
+	for fnode, node := range g.Nodes {
+		if fnode == nil || !inModule(fnode) {
+			continue
+		}
+		root := fnode
+		for root.Parent() != nil {
+			root = root.Parent()
+		}
+		obj, _ := root.Object().(*types.Func)
+		fi := w.Decl(obj)
+		if fi == nil {
+			continue
+		}
+		rp := relPkg(fi.Obj)
+		if strings.HasPrefix(rp, "pkg/core") || rp == "pkg/persistence" || strings.HasPrefix(rp, "pkg/storage") || rp == "pkg/engine" {
+			continue
+		}
+		for _, e := range node.Out {
+			if e.Site == nil || !e.Site.Common().IsInvoke() || e.Callee == nil || e.Callee.Func == nil {
+				continue
+			}
+			co, _ := e.Callee.Func.Object().(*types.Func)
+			if co == nil {
+				continue
+			}
+			if nm, ok := sinks[co.Origin()]; ok {
+				out = append(out, sinkCall{fi: fi, fn: fnode, call: e.Site, sink: nm + "(via " + e.Site.Common().Method.Name() + " interface call)"})
+			}
+		}
+	}
+	sort.SliceStable(out, func(i, j int) bool {
+		if a, b := qname(out[i].fi.Obj), qname(out[j].fi.Obj); a != b {
+			return a < b
+		}
+		return out[i].call.Pos() < out[j].call.Pos()
+	})
 	return out
 }
 
@@ -167,6 +206,26 @@ func ruleJRN12(w *World, r *Report, scope func(sc sinkCall) bool) {
 			}
 		}
 		if !ok {
+			// (d) the change has no log representation and is committed by a snapshot instead:
+			// every path from the mutation to a possibly-successful return passes SaveSnapshot.
+			if ss := w.FuncObj("pkg/engine", "Engine.SaveSnapshot"); ss != nil {
+				nres := sc.fn.Signature.Results().Len()
+				if nres > 0 && isErrorType(sc.fn.Signature.Results().At(nres-1).Type()) {
+					blockedF := map[edgeKey]bool{}
+					if c, isCall := sc.call.(*ssa.Call); isCall {
+						blockedF = failureEdges(sc.fn, c)
+					}
+					found, _ := (pathQuery{fn: sc.fn, target: func(in ssa.Instruction) bool {
+						rt, ok := in.(*ssa.Return)
+						return ok && !definitelyError(retVal(rt, nres-1))
+					}, avoid: callsTo(ss), blocked: blockedF}).find(posOf(sc.call))
+					if !found && len(findInstrs(sc.fn, callsTo(ss))) > 0 {
+						ok = true
+					}
+				}
+			}
+		}
+		if !ok {
 			// (c) the journal write sits in a loop over the batch that entirely precedes the mutation:
 			// a zero-iteration pass journals nothing and applies nothing.
 			for _, jn := range findInstrs(sc.fn, journal) {
@@ -214,6 +273,11 @@ func ruleJRN12(w *World, r *Report, scope func(sc sinkCall) bool) {
 }
 
 // ---------- JRN-3 effect-then-error ----------
+
+// jrn3Exceptions: one (operation, error origin) wide, each with the reason the late rejection cannot take effect.
+var jrn3Exceptions = map[string]string{
+	"Engine.VSetMetadata:DB.AddMetadata": "DB.AddMetadata fails only with 'index not found', i.e. after a concurrent VDeleteIndex; that drop's VDROP is in the same log, and replay ignores a VMETA for a dropped/unknown index, so the rejected update never takes effect later",
+}
 
 // ruleJRN3: in each journaling operation, after a successful journal write no path returns a non-nil
 // error (the command is in the log, so it WILL take effect on restart even though the caller was told
@@ -273,6 +337,12 @@ func ruleJRN3(w *World, r *Report) {
 						continue // a failing Flush is a durability report, not a rejection of the request
 					}
 					if src.obj == jw {
+						continue
+					}
+					if why, ok := jrn3Exceptions[q+":"+src.name]; ok {
+						r.Ok("JRN-3", fmt.Sprintf("%s:error-after-journal:%s", q, src.name), w.Pos(src.pos), "exception: "+why)
+						r.Except(q + ":" + src.name + ": " + why)
+						seenKey[fmt.Sprintf("%s:error-after-journal:%s", q, src.name)] = true
 						continue
 					}
 					key := fmt.Sprintf("%s:error-after-journal:%s", q, src.name)
@@ -363,7 +433,7 @@ func errorOrigins(v ssa.Value, at *ssa.BasicBlock, reach map[*ssa.BasicBlock]boo
 			msg := "constructed error"
 			if len(x.Call.Args) > 0 {
 				if s, ok := constString(x.Call.Args[0]); ok {
-					msg = "error \"" + firstWords(s, 4) + "\""
+					msg = "error:" + strings.ReplaceAll(firstWords(s, 4), " ", "_")
 				}
 			}
 			return []errOrigin{{name: msg, pos: x.Pos()}}
